@@ -4,6 +4,7 @@ import (
 	"bytes"
 	stdjson "encoding/json"
 	"fmt"
+	"io"
 	"os"
 	"os/exec"
 	"path/filepath"
@@ -118,6 +119,8 @@ type stdOuter struct {
 	In      stdInner               `json:"in"`
 	P       *stdInner              `json:"p"`
 	M       map[string]int         `json:"m"`
+	IM      map[int]string         `json:"im"`
+	UM      map[uint16]bool        `json:"um,omitempty"`
 	Any     interface{}            `json:"any"`
 	Raw     stdjson.RawMessage     `json:"raw,omitempty"`
 	Mixed   map[string]interface{} `json:"Mixed"`
@@ -132,6 +135,8 @@ type iOuter struct {
 	In      stdInner               `json:"in"`
 	P       *stdInner              `json:"p"`
 	M       map[string]int         `json:"m"`
+	IM      map[int]string         `json:"im"`
+	UM      map[uint16]bool        `json:"um,omitempty"`
 	Any     interface{}            `json:"any"`
 	Raw     ijson.RawMessage       `json:"raw,omitempty"`
 	Mixed   map[string]interface{} `json:"Mixed"`
@@ -181,7 +186,7 @@ func streamStd(r *rng, n int, pfx string) {
 	for i := 0; i < n; i++ {
 		id := fmt.Sprintf("%s%d", pfx, i)
 		c := cfgFor(r)
-		switch r.n(6) {
+		switch r.n(7) {
 		case 0: // dynamic values: Marshal
 			v := dynOf(genValue(r, c, 0))
 			res := guarded(func() string {
@@ -229,6 +234,20 @@ func streamStd(r *rng, n int, pfx string) {
 			o := stdOuter{Name: r.pick(strPool), N: int64(r.n(1000)) - 500, F: float64(r.n(1000)) / 8, B: true,
 				In: stdInner{X: r.n(9), Z: []string{r.pick(strPool)}}, M: map[string]int{r.pick(plainNames): 1, r.pick(plainNames): 2},
 				Any: dynOf(genValue(r, c, 1)), Mixed: map[string]interface{}{"k": dynOf(genValue(r, c, 2))}}
+			// maps with integer keys: encoded with the keys' decimal TEXTS sorted as strings
+			// ("-1" < "-2" < "10" < "9"), not by number
+			if r.chance(2, 3) {
+				o.IM = map[int]string{}
+				for k := 0; k < 2+r.n(4); k++ {
+					o.IM[[]int{-120, -12, -2, -1, 0, 1, 2, 9, 10, 11, 100, 1000}[r.n(12)]] = "v"
+				}
+			}
+			if r.chance(1, 2) {
+				o.UM = map[uint16]bool{}
+				for k := 0; k < 2+r.n(3); k++ {
+					o.UM[[]uint16{0, 2, 7, 10, 19, 100, 65535}[r.n(7)]] = true
+				}
+			}
 			if r.chance(1, 2) {
 				o.In.Y = &s
 				o.P = &stdInner{X: 1}
@@ -237,7 +256,7 @@ func streamStd(r *rng, n int, pfx string) {
 				o.Skip = "s"
 				o.Raw = stdjson.RawMessage(`{"r": [1, 2]}`)
 			}
-			io := iOuter{Name: o.Name, N: o.N, F: o.F, B: o.B, Skip: o.Skip, In: o.In, P: o.P, M: o.M, Any: o.Any, Raw: ijson.RawMessage(o.Raw), Mixed: o.Mixed}
+			io := iOuter{Name: o.Name, N: o.N, F: o.F, B: o.B, Skip: o.Skip, In: o.In, P: o.P, M: o.M, IM: o.IM, UM: o.UM, Any: o.Any, Raw: ijson.RawMessage(o.Raw), Mixed: o.Mixed}
 			res := guarded(func() string {
 				a, ae := ijson.Marshal(io)
 				b, be := stdjson.Marshal(o)
@@ -292,6 +311,90 @@ func streamStd(r *rng, n int, pfx string) {
 				return "same"
 			})
 			emit("STD %s encoder-stream => %s", id, res)
+		case 5: // Decoder stream driven by a random PROGRAM of Token / More / Decode calls; Decode targets
+			// are often of the wrong type, and the program goes on after such a (non-fatal) error
+			var sb bytes.Buffer
+			for k := 1 + r.n(2); k > 0; k-- {
+				v := genValue(r, c, 0)
+				if r.chance(1, 2) {
+					// a flat container of mixed scalars: every element is a Decode target candidate
+					v = &jv{kind: kArr, arr: []*jv{jnum("1"), jstr("two"), jnum("3.5"), {kind: kObj, keys: []string{"A"}, vals: []*jv{jnum("4")}}, jnull(), jnum("6")}}
+					if r.chance(1, 2) {
+						v = &jv{kind: kObj, keys: []string{"a", "b", "c", "d"}, vals: []*jv{jnum("1"), jstr("two"), {kind: kArr, arr: []*jv{jnum("3")}}, jnum("4")}}
+					}
+				}
+				sb.Write(spell{r.n(3), r}.text(v))
+				sb.WriteString(r.pick([]string{" ", "\n", ""}))
+			}
+			t := sb.Bytes()
+			prog := make([]int, 4+r.n(14))
+			for k := range prog {
+				prog[k] = r.n(8)
+			}
+			type stepper struct {
+				token  func() (interface{}, error)
+				more   func() bool
+				decode func(v interface{}) error
+			}
+			errClass := func(e error) string {
+				if e == nil {
+					return "nil"
+				}
+				if e == io.EOF {
+					return "EOF"
+				}
+				n := fmt.Sprintf("%T", e)
+				return n[strings.LastIndexByte(n, '.')+1:]
+			}
+			run := func(d stepper, delim func(interface{}) (string, bool)) string {
+				var tr strings.Builder
+				for _, st := range prog {
+					switch st {
+					case 0, 1:
+						tk, e := d.token()
+						if dl, ok := delim(tk); ok {
+							fmt.Fprintf(&tr, "T[%s,%s]", dl, errClass(e))
+						} else {
+							fmt.Fprintf(&tr, "T[%v,%s]", tk, errClass(e))
+						}
+					case 2:
+						fmt.Fprintf(&tr, "M[%v]", d.more())
+					case 3:
+						var x int
+						e := d.decode(&x)
+						fmt.Fprintf(&tr, "Di[%d,%s]", x, errClass(e))
+					case 4:
+						var x string
+						e := d.decode(&x)
+						fmt.Fprintf(&tr, "Ds[%q,%s]", x, errClass(e))
+					case 5:
+						var x interface{}
+						e := d.decode(&x)
+						fmt.Fprintf(&tr, "Da[%v,%s]", x, errClass(e))
+					case 6:
+						var x struct{ A int }
+						e := d.decode(&x)
+						fmt.Fprintf(&tr, "Dt[%d,%s]", x.A, errClass(e))
+					default:
+						var x []int
+						e := d.decode(&x)
+						fmt.Fprintf(&tr, "Dl[%v,%s]", x, errClass(e))
+					}
+				}
+				return tr.String()
+			}
+			res := guarded(func() string {
+				da, db := ijson.NewDecoder(bytes.NewReader(t)), stdjson.NewDecoder(bytes.NewReader(t))
+				ta := run(stepper{func() (interface{}, error) { return da.Token() }, da.More, func(v interface{}) error { return da.Decode(v) }},
+					func(x interface{}) (string, bool) { d, ok := x.(ijson.Delim); return d.String(), ok })
+				tb := run(stepper{func() (interface{}, error) { return db.Token() }, db.More, func(v interface{}) error { return db.Decode(v) }},
+					func(x interface{}) (string, bool) { d, ok := x.(stdjson.Delim); return d.String(), ok })
+				if ta != tb {
+					return "diff:trace"
+				}
+				return "same"
+			})
+			emit("STD %s decoder-program => %s", id, res)
 		default: // Decoder stream: several values, tokens
 			var sb bytes.Buffer
 			for k := 1 + r.n(3); k > 0; k-- {
@@ -435,6 +538,11 @@ func prepareCalls(r *rng, k int) []prepared {
 		switch r.n(8) {
 		case 0, 1, 2:
 			o := randOpts(r)
+			if r.chance(1, 3) {
+				// a positive copy limit, small enough to be reached now and then (the running total
+				// belongs to ONE call: a failed call must leave nothing behind)
+				o.limit = int64(10 + r.n(150))
+			}
 			c := genApplyCase(r, cfgFor(r), o, r.n(3), r.n(3), 5)
 			// escaped reference tokens (~0, ~1) in many of the concurrently applied patches: token
 			// decoding is shared code
@@ -475,7 +583,7 @@ func prepareCalls(r *rng, k int) []prepared {
 				if c.indent != "" {
 					extra += " plain=" + callApply(c.o, "", c.doc, c.patch)
 				}
-				if !bytes.Equal(docSnap, c.doc) || patchFingerprint(shared) != fp {
+				if !bytes.Equal(docSnap, c.doc) || patchFingerprint(shared) != fp || !c.o.sharedIntact() {
 					extra += " mut=1"
 				}
 				emitHist(key, "APPLY %s %s %d %s %s %s => %s%s", id, c.o.flags(), c.o.limit, hx([]byte(c.indent)), hx(c.doc), hx(c.patch), obs, extra)
@@ -766,7 +874,7 @@ func emitCli(id, pkg, bin string, stdin []byte, args, fields []string, texts [][
 	if err != nil {
 		exit = 1
 		if ee, ok := err.(*exec.ExitError); ok {
-		exit = ee.ExitCode()
+			exit = ee.ExitCode()
 		}
 	}
 	// the fold of the library's own Apply
@@ -776,51 +884,51 @@ func emitCli(id, pkg, bin string, stdin []byte, args, fields []string, texts [][
 	} else {
 		mdoc := stdin
 		if pkg == "v5" {
-		var ps []jsonpatch.Patch
-		for _, t := range texts {
-			p, err := jsonpatch.DecodePatch(t)
-			if err != nil {
-			libExit = 1
-			break
-			}
-			ps = append(ps, p)
-		}
-		if libExit == 0 {
-			for _, p := range ps {
-			mdoc, err = p.Apply(mdoc)
-			if err != nil {
-				libExit = 1
-				break
-			}
-			}
-		}
-		} else {
-		var ps []legacy.Patch
-		for _, t := range texts {
-			p, err := legacy.DecodePatch(t)
-			if err != nil {
-			libExit = 1
-			break
-			}
-			ps = append(ps, p)
-		}
-		if libExit == 0 {
-			res := guarded(func() string {
-			for _, p := range ps {
-				mdoc, err = p.Apply(mdoc)
+			var ps []jsonpatch.Patch
+			for _, t := range texts {
+				p, err := jsonpatch.DecodePatch(t)
 				if err != nil {
-				return "err"
+					libExit = 1
+					break
+				}
+				ps = append(ps, p)
+			}
+			if libExit == 0 {
+				for _, p := range ps {
+					mdoc, err = p.Apply(mdoc)
+					if err != nil {
+						libExit = 1
+						break
+					}
 				}
 			}
-			return "ok"
-			})
-			if res != "ok" {
-			libExit = 1
+		} else {
+			var ps []legacy.Patch
+			for _, t := range texts {
+				p, err := legacy.DecodePatch(t)
+				if err != nil {
+					libExit = 1
+					break
+				}
+				ps = append(ps, p)
+			}
+			if libExit == 0 {
+				res := guarded(func() string {
+					for _, p := range ps {
+						mdoc, err = p.Apply(mdoc)
+						if err != nil {
+							return "err"
+						}
+					}
+					return "ok"
+				})
+				if res != "ok" {
+					libExit = 1
+				}
 			}
 		}
-		}
 		if libExit == 0 {
-		libOut = mdoc
+			libOut = mdoc
 		}
 	}
 	toks := []string{"CLI", id, pkg, hx(stdin), strconv.Itoa(len(fields))}
